@@ -135,6 +135,25 @@ fn report_side_condition(rep: &mut Report, model: &Model, safe_reqs: &[String]) 
     rep.countn("theorem_side_condition_not_applicable_sources", tot.2 as u64);
 }
 
+/// the whole-project theorems: on how many generated projects do their executable side conditions hold, and do their
+/// conclusions hold in the model wherever they do (a `false` there would contradict a kernel-checked theorem: driver defect)
+fn report_project_condition(rep: &mut Report, model: &Model, reqs: &[String], which: &str) {
+    for (q, r) in reqs.iter().zip(model.batch(reqs).iter()) {
+        match parse_projsafe_response(r) {
+            Some(m) => {
+                let deps = if m.get("deps").map(|x| x == "true").unwrap_or(false) { "with-dependencies" } else { "no-dependencies" };
+                rep.count(&format!("whole-project-theorem:{which}={}|{deps}", m[which]));
+                let concl = if which == "needed" { "nconcl" } else { "tconcl" };
+                if m.get(concl).map(|x| x != "true").unwrap_or(true) {
+                    let what = format!("model self-check: the conclusion of the whole-project theorem ({which}) does not hold in the executable model although its side condition does: {r}");
+                    rep.violation("model", &what, &format!("# {what}\n# request to the model driver:\n{q}\n"));
+                }
+            }
+            None => rep.notes.push(format!("model driver: no answer to a `projsafe` request ({} bytes): {:?}", q.len(), r.chars().take(80).collect::<String>())),
+        }
+    }
+}
+
 fn fresh_project(rng: &mut Rng, runner: &mut Runner, want_ok: bool) -> Option<(Project, Tree, Tree, RunCfg)> {
     for _ in 0..6 {
         let p0 = gen_project(rng, &hist_opts());
@@ -541,10 +560,12 @@ pub fn run_c08(args: &Args) -> Report {
     let mut runner = Runner::new(args, "c08");
     let bin = args.bin.clone().unwrap_or_default();
     let mut safe_reqs: Vec<String> = vec![];
+    let mut proj_reqs: Vec<String> = vec![];
     for i in 0..n {
         let Some((p, t0, tref, cfg)) = fresh_project(&mut rng, &mut runner, true) else { continue };
         let gen = generated_paths(&t0, &tref);
         safe_reqs.push(encode_safe_request(&t0, "build", &p.cmds, &runner.base_abs));
+        proj_reqs.push(encode_projsafe_request(&t0, &cfg, &p.cmds, &runner.base_abs));
         let variants = if args.thorough() { 5 } else { 3 };
         for v in 0..variants {
             let mut t = t0.clone();
@@ -611,6 +632,7 @@ pub fn run_c08(args: &Args) -> Report {
         }
     }
     report_side_condition(&mut rep, &model, &safe_reqs);
+    report_project_condition(&mut rep, &model, &proj_reqs, "twice");
     compare_all(&mut rep, &runner, &model, "C08", "C08.build_open_forgets, build_open_hermetic, build_done_writes, temp_overwrites, temp_idempotent");
     runner.cleanup();
     rep
@@ -627,9 +649,12 @@ pub fn run_c09(args: &Args) -> Report {
     rep.rule = "histories over generated projects: reference build; then per generated file one of {up to date, stale (other text / longer: right + tail / shorter: proper prefix / same length different bytes / non-UTF-8), missing}; then a needed-build (also build and verify for the temp rule). Oracles: needed-build verdict and every byte equal a normal build of the same tree in a scratch copy; outputs and temp files whose content was already correct keep (inode, mtime); stale ones are brought up to date. Every run also compared with the model.".to_string();
     let mut runner = Runner::new(args, "c09");
     let mut safe_reqs: Vec<String> = vec![];
+    let mut proj_reqs: Vec<String> = vec![];
     for i in 0..n {
         let Some((p, t0, tref, cfg)) = fresh_project(&mut rng, &mut runner, true) else { continue };
         safe_reqs.push(encode_safe_request(&t0, "build", &p.cmds, &runner.base_abs));
+        proj_reqs.push(encode_projsafe_request(&t0, &cfg, &p.cmds, &runner.base_abs));
+        proj_reqs.push(encode_projsafe_request(&tref, &cfg, &p.cmds, &runner.base_abs));
         let gen = generated_paths(&t0, &tref);
         for v in 0..(if args.thorough() { 4 } else { 2 }) {
             let mut t = tref.clone();
@@ -684,6 +709,9 @@ pub fn run_c09(args: &Args) -> Report {
             }
             // what a normal build makes of this tree (scratch copy)
             write_tree(&t, &runner.dir);
+            if v == 0 {
+                proj_reqs.push(encode_projsafe_request(&t, &cfg, &p.cmds, &runner.base_abs));
+            }
             let mut bcfg = cfg.clone();
             bcfg.mode = "build";
             let want = run_impl(&runner.dir, &bcfg, &runner.log);
@@ -741,6 +769,7 @@ pub fn run_c09(args: &Args) -> Report {
         }
     }
     report_side_condition(&mut rep, &model, &safe_reqs);
+    report_project_condition(&mut rep, &model, &proj_reqs, "needed");
     compare_all(&mut rep, &runner, &model, "C09", "C09.needed_no_touch, needed_updates_stale, needed_eq_build, temp_no_touch, temp_updates_stale");
     runner.cleanup();
     rep
